@@ -48,6 +48,19 @@ def make_workload(seed, i):
     M.randomize_target_options(pkg, rng.fork("options"), p=0.3)
     kind = rng.weighted([("plain", 3), ("versions", 4), ("invalid", 2)])
     desc = {"i": i, "kind": kind, "pkg_seed": pkg.render_seed}
+    gu = rng.fork("genunion")
+    if gu.chance(0.5):
+        # generic unions over two and three type parameters, a generic record with a union of its parameters, and uses of them
+        fn = sorted(pkg.files)[0]
+        pkg.files[fn].append(M.Alias("SteerEither", ("T", "U"), M.Union((("tEither", M.TParam("T")), ("uEither", M.TParam("U"))), explicit=True)))
+        pkg.files[fn].append(M.Alias("SteerTriple", ("A", "B", "C"), M.Union((("aTriple", M.TParam("A")), ("bTriple", M.TParam("B")), ("cTriple", M.TParam("C"))), nullable=True, explicit=True)))
+        pkg.files[fn].append(M.Record("SteerEnvelope", ("K", "V"), [("id", M.Prim("int32")), ("payload", M.Union((("kEnv", M.TParam("K")), ("vEnv", M.TParam("V"))), explicit=True)),
+                                                                  ("maybe", M.Opt(M.Named("SteerEither", (M.TParam("K"), M.TParam("V")))))]))
+        prims = [M.Prim(x) for x in gu.sample(["int32", "string", "float64", "bool", "uint8"], 3)]
+        pkg.files[fn].append(M.Protocol("SteerGenUnions", [("either", M.Named("SteerEither", (prims[0], prims[1])), gu.chance(0.5)),
+                                                           ("triple", M.Named("SteerTriple", tuple(prims)), gu.chance(0.5)),
+                                                           ("envelope", M.Named("SteerEnvelope", (prims[1], prims[2])), gu.chance(0.5))]))
+        desc["generic_unions"] = True
     sh = rng.fork("shared")
     if len(pkg.imports) >= 2 and sh.chance(0.6):
         # the same type name in two imported packages (each namespace has its own)
